@@ -11,6 +11,8 @@ func (x *extractor) genSkeletons() string {
 	x.genSkeletonsConc(&b)
 	b.WriteString("\n")
 	x.genGuards(&b)
+	b.WriteString("\n")
+	x.genGlobals(&b)
 	b.WriteString("\nend Ntrip.Gen\n")
 	return b.String()
 }
